@@ -47,7 +47,13 @@ class Scratch:
         return p
 
     def cleanup(self) -> None:
-        shutil.rmtree(self.path, ignore_errors=True)
+        # removing tens of thousands of small files can take minutes on a busy disk: do it detached
+        try:
+            trash = self.path.with_name(self.path.name + ".trash")
+            self.path.rename(trash)
+            subprocess.Popen(["rm", "-rf", str(trash)], stdout=subprocess.DEVNULL, stderr=subprocess.DEVNULL, start_new_session=True)
+        except OSError:
+            shutil.rmtree(self.path, ignore_errors=True)
 
 
 def child_env(scratch: Path, **extra: str) -> dict[str, str]:
@@ -381,6 +387,9 @@ class Check:
             rp.write_text(json.dumps({"property": self.prop, **v}, indent=1, default=str))
             print(f"VIOLATION property={self.prop} replay={rp}")
             print(f"  clause={v['clause']} locus={json.dumps(v['locus'], sort_keys=True, default=str)} {v['detail'][:300]}")
+        if os.environ.get("VERIF_DUMP"):
+            uniq = sorted({json.dumps([v["clause"], v["locus"]], sort_keys=True, default=str) for v in violations})
+            Path(os.environ["VERIF_DUMP"]).write_text("\n".join(uniq) + "\n")
         for d in self.drift[:20]:
             print(f"DRIFT: property={self.prop} {d}")
         self.cov["distinct_nontrivial"] = len(self._nontrivial)
